@@ -35,16 +35,17 @@ func registerModels(w *World) {
 	le := func(nbytes int, put bool) Model {
 		return func(f *Frame, st *State, call ssa.CallInstruction, args []*Val) *Val {
 			c := f.c
-			if c.intMode {
-				panic(unsupported("encoding/binary in arith int mode"))
-			}
 			in := call.(ssa.Instruction)
 			b := args[1]
 			f.panicSite(st, in, "index", c.idxLt(b.Len, c.idxLit(int64(nbytes))), "binary.LittleEndian: slice too short")
 			u8 := types.Typ[types.Uint8]
 			if put {
 				v := args[2].T
-				for i := 0; i < nbytes; i++ {
+				for i := 0; i < nbytes && c.intMode; i++ {
+					by := sexp(SInt, "mod", sexp(SInt, "div", v, IntLit(pow2(8*i))), IntLit(pow2(8)))
+					c.store(st, RefElem(b.Base, c.idxAdd(b.Off, c.idxLit(int64(i)))), u8, scalar(by, u8))
+				}
+				for i := 0; i < nbytes && !c.intMode; i++ {
 					c.store(st, RefElem(b.Base, c.idxAdd(b.Off, c.idxLit(int64(i)))), u8, scalar(Extract(8*i+7, 8*i, v), u8))
 				}
 				return nil
@@ -54,6 +55,8 @@ func registerModels(w *World) {
 				by := c.load(st, RefElem(b.Base, c.idxAdd(b.Off, c.idxLit(int64(i)))), u8).T
 				if i == 0 {
 					acc = by
+				} else if c.intMode {
+					acc = IAdd(acc, IMul(by, IntLit(pow2(8*i))))
 				} else {
 					acc = Concat(by, acc)
 				}
